@@ -98,7 +98,7 @@ def _ops_all(b, B, held, names, res, rnd, light=False):
         perms = rnd.sample(perms, 4 if light else 8)
     for p in perms:
         snap = _snapshot(b, held, names)
-        o = {nm: k for k, nm in enumerate(p)}
+        o = shuffled_dict({nm: k for k, nm in enumerate(p)}, rnd)     # listed in no particular order
         B.reorder(b, o)
         require(dict(b.vars) == o, 'reorder#post:requested-order', lambda: f'{b.vars} != {o}')
         _verify(b, held, snap, names, 'reorder-to-order')
@@ -122,7 +122,7 @@ def case_single3(c, res):
     lo, hi = c['part'] * 128, (c['part'] + 1) * 128
     keys = []
     for t in range(lo, hi):
-        b = fresh(names, {nm: k for k, nm in enumerate(c['order'])})
+        b = fresh(names, shuffled_dict({nm: k for k, nm in enumerate(c['order'])}, rnd))
         if c['dyn']:
             b.configure(reordering=True)
             b._last_len = 1
@@ -146,7 +146,7 @@ def case_sets(c, res):
     names = hist.ALLNAMES[:c['nvars']] if c['nvars'] <= 5 else hist.ALLNAMES + ['f']
     o = names[:]
     rnd.shuffle(o)
-    b = fresh(names, {nm: k for k, nm in enumerate(o)})
+    b = fresh(names, shuffled_dict({nm: k for k, nm in enumerate(o)}, rnd))
     n = len(names)
     held = []
     for _ in range(rnd.randint(1, 3)):
